@@ -13,7 +13,7 @@ VERIF_DIR="$(cd "$(dirname "$0")/.." && pwd)"
 SD="$WT/SEEDED/$N"
 export GOFLAGS=-mod=mod GOPROXY=off GOSUMDB=off GOTOOLCHAIN=local
 cd "$WT" || exit 2
-git checkout -q -- . 2>/dev/null
+git checkout -q -- . 2>/dev/null; git clean -fdq -e SEEDED 2>/dev/null
 [ -f "$SD/patch.diff" ] || { echo "$ID: no patch"; exit 2; }
 # demo without the patch
 ( cd "$SD/demo" && bash ./run.sh ) >/tmp/seed-$ID-demo-clean.log 2>&1; clean_rc=$?
@@ -36,7 +36,7 @@ for c in "$@"; do
     printf '%s\t%s\t%s\t%s\n' "$c" "$rc" "-" "$(echo "$sig" | cut -c1-300)" >> "$results"
   fi
 done
-git checkout -q -- .
+git checkout -q -- .; git clean -fdq -e SEEDED
 if [ "$build" = ok ] && [ "$tests" = pass ] && [ $clean_rc -eq 0 ] && [ $patched_rc -ne 0 ]; then
   mkdir -p "$VERIF_DIR/seeded/$ID"
   cp "$SD/patch.diff" "$VERIF_DIR/seeded/$ID/patch.diff"
